@@ -258,6 +258,27 @@ func ruleA6(c *Ctx) {
 	rawConsumers = map[string]string{}
 	if pa := c.persist(); pa.writer != nil {
 		rawConsumers[fnName(pa.writer)] = "snapshot writer (drives the gob encoder): must persist every stored key, the deadline is stored with it"
+		// helpers that only the snapshot writer calls are parts of it
+		for round := 0; round < 3; round++ {
+			for _, fn := range p.SrcFuncs() {
+				if _, is := rawConsumers[fnName(fn)]; is || fn.Parent() != nil {
+					continue
+				}
+				node := c.CG.Nodes[fn]
+				if node == nil || len(node.In) == 0 {
+					continue
+				}
+				only := true
+				for _, e := range node.In {
+					if _, is := rawConsumers[fnName(e.Caller.Func)]; !is {
+						only = false
+					}
+				}
+				if only {
+					rawConsumers[fnName(fn)] = "called only by the snapshot writer: a part of it"
+				}
+			}
+		}
 	}
 	isExp := m.expiryFns()
 	if len(isExp) == 0 {
